@@ -77,6 +77,26 @@ def _data(n, tag):
     return hashlib.shake_128(tag.encode()).digest(n)
 
 
+def _settle(s, d, wait=10.0):
+    """wait (bounded) until the relay has cut everything written in direction d into records; False = not settled, no verdict"""
+    import time
+    end = time.monotonic() + wait
+    while time.monotonic() < end:
+        if s.proxy.settled(d):
+            return True
+        time.sleep(0.002)
+    return False
+
+
+def _wire_capacity(s, proto, d, mark):
+    """upper bound of the application bytes carried by the application records of direction d seen since `mark`: TLCP / TLS 1.2 records are
+    IV(16) + data + HMAC(32) + padding(1..16), TLS 1.3 records are data + inner type(1) + tag(16).  None = no verdict."""
+    if mark is None or not _settle(s, d):
+        return None
+    over = 17 if proto == "tls13" else 49
+    return sum(max(0, ln - over) for (dd, idx, typ, ln) in list(s.proxy.log)[mark:] if dd == d and typ == 23)
+
+
 def _size_class(n):
     return "1" if n == 1 else "<16384" if n < 16384 else "16384" if n == 16384 else "<=32768" if n <= 32768 else ">32768"
 
@@ -143,8 +163,11 @@ def session(case, ctx):
         # data phases
         eps = {"c": s.client, "s": s.server}
         wrote = 0
+        mark = len(s.proxy.log) if all(_settle(s, d) for d in ("c2s", "s2c")) else None
+        accepted = {"c2s": 0, "s2c": 0}
         for pi, ph in enumerate(case["phases"]):
             if ph["dir"].startswith("echo"):
+                mark = None    # the echo phase's writes are not counted
                 # a writes; b reads only the first `cut` bytes, answers while the rest of that record is still unread, then reads the
                 # rest (an echo loop with a read buffer smaller than the peer's writes).  TLCP / TLS 1.2 refuse the write with -1
                 # ("recv all buffered data before send"): a clean refusal is accepted for every protocol, silent corruption is not.
@@ -210,6 +233,16 @@ def session(case, ctx):
                           "write/%s/%s" % (proto, "gt16384" if len(data) > 16384 else "le16384"))
                 wrote += len(data)
                 classes.append("w:" + _size_class(len(data)))
+                # conservation on the wire: the write has returned, so every byte it accepted is in application records that have left
+                # the writer (no clock involved: the relay is asked whether it has taken everything the writer wrote off its socket)
+                d = "c2s" if a == "c" else "s2c"
+                accepted[d] += len(data)
+                cap = _wire_capacity(s, proto, d, mark)
+                if cap is not None:
+                    ctx.check(cap >= accepted[d], "%s: %s was told that %d bytes were accepted (this write: %d bytes), but the application records it "
+                              "put on the wire can carry at most %d bytes" % (proto, "client" if a == "c" else "server", accepted[d], len(data), cap),
+                              "write/%s/%s/wire" % (proto, "gt16384" if len(data) > 16384 else "le16384"))
+                    ctx.note("wire-conservation-checked")
             for (a, b, data) in msgs:
                 r = eps[b].do("recv_n", len(data), ph["bufs"])
                 if r[0] == "timeout":
